@@ -347,6 +347,10 @@ def _strategy_base():
 
         def before(self):
             self._log('before')
+            if self.spec.get('shared'):
+                # the documented channel between routes: whatever an earlier route / step (or an earlier SESSION) left in it
+                TRACE.append(('shared', self.symbol, now(), sorted((str(k), repr(v)) for k, v in self.shared_vars.items())))
+                self.shared_vars[self.symbol] = self.index
             if self.spec.get('indicator'):
                 # a non-sequential, recursive indicator: its value depends on how many candles the framework lets it see
                 import jesse.indicators as ta
